@@ -165,6 +165,13 @@ func finish(prop *PropertySpec, tier string, seed int, obls []Obligation, notes 
 			samples = append(samples, map[string]any{"rule": o.Rule, "obligation": o.Key, "at": o.Pos, "status": o.Status, "what": o.Msg})
 		}
 	}
+	// the complete list of obligations of this run (not committed; evidence keeps samples and counts)
+	if outDir != "" {
+		os.MkdirAll(filepath.Join(outDir, prop.ID), 0o755)
+		if ab, err := json.MarshalIndent(obls, "", " "); err == nil {
+			os.WriteFile(filepath.Join(outDir, prop.ID, "obligations.json"), ab, 0o644)
+		}
+	}
 	if len(samples) == 0 {
 		for i := range obls {
 			if i < 5 {
